@@ -60,6 +60,11 @@ class Json:
             a = rand_array(rng, ndim=nd, minlen=0 if rng.random() < 0.15 else 1, maxlen=3, dtype=dt, nan_p=0.15 if dt == 'f' else 0, kinds=('i', 'f', 'O'))
             a['attrs'] = {k: v for k, v in rand_meta(rng).items()}
             if rng.random() < 0.2: a['attrs']['nested'] = {'a': [1, 2], 'b': 'x'}
+            if rng.random() < 0.25:
+                # metadata keys that are also names of properties / methods of the class, or of a dimension of the array
+                for k in rng.sample(['size', 'shape', 'max', 'mean', 'ndim', 'T'] + list(a['dims']), rng.randint(1, 2)):
+                    a['attrs'][k] = rng.choice(['big', 2.5, 7])
+                stats['json_meta_member_names']['yes'] += 1
             stats['json_dtype'][dt] += 1; stats['json_ndim'][nd] += 1
             stats['json_empty'][str(0 in [len(l) for l in a['labels']])] += 1
             cases.append({'arr': a})
